@@ -504,9 +504,129 @@ def r1_4(ctx: Ctx, rule="R1.4"):
                "molecule and stored under the anchor's key", node=call[0] if call else g.node)
 
 
+def _plain_iter_top(it):
+    # iterating list(X) / tuple(X) / sorted(X) / X.keys() visits what iterating X visits
+    while True:
+        if isinstance(it, ast.Call) and call_name(it) in ("list", "tuple", "sorted") and len(it.args) == 1 and not it.keywords:
+            it = it.args[0]
+        elif isinstance(it, ast.Call) and isinstance(it.func, ast.Attribute) and it.func.attr == "keys" and not it.args:
+            it = it.func.value
+        else:
+            return it
+
+
+_PAIRWISE_CALLS = ("pdist", "cdist", "combinations", "distance_matrix", "product", "permutations", "squareform", "KDTree", "cKDTree")
+
+
+def _sees_all_pairs(fn: ast.AST) -> bool:
+    """Could this function compute a quantity over every PAIR of anchors?  (nested loops / comprehension with two
+    generators / one of the pairwise library calls / broadcasting with a new axis)"""
+    for n in ast.walk(fn):
+        if isinstance(n, ast.Call) and call_name(n) in _PAIRWISE_CALLS:
+            return True
+        if isinstance(n, (ast.For, ast.While)):
+            if any(isinstance(s, (ast.For, ast.While, ast.ListComp, ast.GeneratorExp, ast.SetComp, ast.DictComp))
+                   for b in n.body for s in ast.walk(b)):
+                return True
+        if isinstance(n, (ast.ListComp, ast.GeneratorExp, ast.SetComp, ast.DictComp)):
+            if len(n.generators) > 1 or any(isinstance(s, (ast.ListComp, ast.GeneratorExp, ast.SetComp, ast.DictComp))
+                                            for s in ast.walk(n.elt)):
+                return True
+        if isinstance(n, ast.Subscript) and any(isinstance(s, ast.Constant) and s.value is None for s in ast.walk(n.slice)):
+            return True
+        if isinstance(n, ast.Attribute) and n.attr == "newaxis":
+            return True
+    return False
+
+
+def _const_value(e: ast.AST):
+    if isinstance(e, ast.Constant) and isinstance(e.value, (int, float)) and not isinstance(e.value, bool):
+        return e.value
+    if isinstance(e, ast.UnaryOp) and isinstance(e.op, ast.USub):
+        v = _const_value(e.operand)
+        return None if v is None else -v
+    return None
+
+
+def early_capture_sites(fn: ast.AST, methods, frames_attr: str):
+    """Explicit-loop nearest-anchor search with a threshold early exit.  ``methods`` maps a name to the FunctionDef of
+    every method of the class.  Returns [(return node, message)] for the exits whose threshold cannot be the all-pairs bound."""
+    from ..pat import expand_single_defs as _xsd
+    out = []
+    pm = parents_map(fn)
+    loops = [n for n in walk_no_nested(fn) if isinstance(n, ast.For) and attr_chain(_plain_iter_top(n.iter)) == frames_attr]
+    for lp in loops:
+        idx = norm(lp.target)
+        for r in [n for b in lp.body for n in walk_no_nested(b) if isinstance(n, ast.Return)]:
+            if r.value is None or norm(r.value) != idx:
+                continue
+            # guards outside the loop do not bound the distance of this iteration
+            inside = []
+            for t, pol in guards_of(r, pm):
+                p = t
+                while id(p) in pm:
+                    p = pm[id(p)]
+                    if p is lp:
+                        inside.append((t, pol))
+                        break
+            if len(inside) != 1:
+                continue
+            t, pol = inside[0]
+            if not (pol and isinstance(t, ast.Compare) and len(t.ops) == 1):
+                continue
+            op, lhs, rhs = t.ops[0], t.left, t.comparators[0]
+            if isinstance(op, (ast.Lt, ast.LtE)):
+                dist, thr = lhs, rhs
+            elif isinstance(op, (ast.Gt, ast.GtE)):
+                dist, thr = rhs, lhs
+            else:
+                continue
+            # the compared quantity must be this iteration's distance to the anchor
+            dx = _xsd(fn, dist)
+            if not (isinstance(dx, ast.Call) and call_name(dx) in ("euclidean", "norm", "sqeuclidean")):
+                continue
+            cv = _const_value(thr)
+            if cv is not None:
+                if cv > 0:
+                    out.append((r, "the search returns the first anchor nearer than the fixed length %r and leaves the later anchors "
+                                "uncompared: a later anchor can be nearer whenever two anchors are less than %r apart" % (cv, 2 * cv)))
+                continue                # <= 0: never taken / exact hit only (distinct anchors cannot both be at distance 0)
+            ch = attr_chain(thr)
+            if not (ch and ch.startswith("self.") and ch.count(".") == 1):
+                continue
+            live = []
+            for gname, g in methods.items():
+                for s in walk_no_nested(g):
+                    tg = s.targets if isinstance(s, ast.Assign) else [s.target] if isinstance(s, (ast.AugAssign, ast.AnnAssign)) else []
+                    for x in tg:
+                        for y in (x.elts if isinstance(x, ast.Tuple) else [x]):
+                            if attr_chain(y) == ch:
+                                v = _const_value(s.value) if isinstance(s, (ast.Assign, ast.AnnAssign)) and s.value is not None else None
+                                if v is None or v > 0:
+                                    live.append((gname, g, s))
+            if not live or any(_sees_all_pairs(g) for _, g, _s in live):
+                continue                # never a positive length / may be the all-pairs bound: not decided here
+            gname, g, s = live[0]
+            out.append((r, "the search returns the first anchor nearer than `%s` and leaves the later anchors uncompared; `%s` is set in "
+                        "%s (line %d) by a single pass that never looks at a PAIR of anchors, so it is not a bound on half the smallest "
+                        "anchor-anchor separation and a later, non-bonded anchor can be the nearer one" % (ch, ch, gname, s.lineno)))
+    return out
+
+
+def _early_capture(ctx: Ctx, em: "EM", f: Func, rule: str) -> bool:
+    sites = early_capture_sites(f.node, {n: g.node for n, g in em.cls.methods.items()}, em.frames_attr)
+    for r, msg in sites[:1]:
+        ctx.ob(rule, f, r, False, msg, node=r)
+    return bool(sites)
+
+
 def r1_5(ctx: Ctx, rule="R1.5"):
     em = EM(ctx)
     f = em.closest
+    from ..fixtures import check_fixture
+    check_fixture(ctx, rule, "earlycapture.py",
+                  lambda repo: sum(len(early_capture_sites(m_.node, {n_: g_.node for n_, g_ in c_.methods.items()}, "self._frames"))
+                                   for c_ in repo.classes.values() for m_ in c_.methods.values()), expect_exact=2)
     rets = [n for n in walk_no_nested(f.node) if isinstance(n, ast.Return)]
     comp = [n for n in ast.walk(f.node) if isinstance(n, (ast.ListComp, ast.GeneratorExp))]
     ok_iter = ok_dist = ok_min = False
@@ -557,8 +677,15 @@ def r1_5(ctx: Ctx, rule="R1.5"):
         ok_min = t.startswith("sorted(") and t.endswith(")[0][1]") and "reverse" not in t or \
             (t.startswith("min(") and t.endswith(")[1]"))
     if not comp:
-        # the candidate list is not built by one comprehension (e.g. an explicit loop): this rule reads the
-        # comprehension form only; anything else is left undecided rather than reported
+        # the candidate list is not built by one comprehension (e.g. an explicit loop).  One thing can still be read from
+        # the loop form: a `return <loop index>` inside the loop over the frames leaves the later anchors uncompared, which
+        # is the nearest anchor only if the guard proves no other anchor can be nearer.  `distance < T` proves that exactly
+        # when T <= half the smallest separation between ANY two anchors, a quantity that needs every pair of anchors
+        # (nested loop / pdist / cdist / combinations / distance_matrix); a T accumulated inside one pass over the anchors
+        # from each anchor's own frame sees bonded pairs only, and folded chains put non-bonded anchors nearer than that.
+        if _early_capture(ctx, em, f, rule):
+            return
+        # anything else is left undecided rather than reported
         ctx.ob(rule, f, "candidates", True, "the nearest-anchor search is not written as a comprehension over the frames; not decided on this tree",
                undecided=True, node=f.node)
         return
